@@ -65,6 +65,15 @@ CLAIMS = {
         "note": TB + " Not decided: equivalence to the abstract multiset model over arbitrary histories.",
         "technique": "static analysis: who-may-write inventory, key provenance, constant folding of flag words, control-dependence on MIR",
     },
+    "C14": {
+        "text": "Static call-graph cut + CFG rules: with the function holding the FORBIDDEN assertion removed, no public function of any workspace "
+                "crate (36 entry points incl. adapters) reaches the registering function except the two documented *_unchecked ones; the assertion "
+                "tests the function's own signal against FORBIDDEN before any effect and the action is dropped on the panic path; FORBIDDEN is a "
+                "superset of the five named signals; OS errors gate the publish; locks tolerate the documented panics; iterator range asserts "
+                "precede init/registration.",
+        "note": TB + " Not decided: which numbers the OS rejects; observable equality of dispositions.",
+        "technique": "static analysis: def-level call-graph cut (CHA), control-dependence and dominance on MIR, constant-table decoding",
+    },
 }
 
 PENDING = "check under construction in this round (rules designed in DESIGN.md §4); not claimed until the rule set runs clean"
